@@ -99,7 +99,7 @@ def run(tier):
             if per_op_fail.get(key, 0) < 3:
                 per_op_fail[key] = per_op_fail.get(key, 0) + 1
                 rep.violation("content_loss", dict(case, output=r["out"]), diffs[:5],
-                              kfpred.sigs_at(sigs, [d[0] for d in diffs]))
+                              kfpred.sigs_at(sigs, [d[0] for d in diffs]), groups=kfpred.sig_groups(sigs, [d[0] for d in diffs]))
         else:
             outcomes.add("ok")
             nontrivial.add(e["case"])
